@@ -70,6 +70,27 @@ def _reset_year_caches(caches):
 
 
 def _year_query(cal, kind, y):
+    if kind == "poison":
+        # PUBLIC operations that must be rejected because they leave the calendar's range by a multiple of 2^17 years (the
+        # year-start cache entry validates 7 bits above its 10 index bits, so such a year is indistinguishable from year y
+        # inside the cache).  Each is expected to raise; whatever happens, no later in-range answer may change.
+        # (Calling the private calculator methods with such years is NOT a supported operation and is not done here:
+        # they trust their callers, and doing so was a false alarm of an earlier version of this check.)
+        miy = cal.get_months_in_year(y)
+        probes = [lambda: LocalDate(y, 1, 1, cal).plus_years(131072), lambda: LocalDate(y, 1, 1, cal).plus_years(-131072),
+                  lambda: LocalDate(y, 2, 1, cal).plus_months(miy * 131072), lambda: LocalDate(y, 3, 1, cal).plus_months(-miy * 131072),
+                  lambda: cal.get_days_in_month(y + 131072, 2), lambda: cal.get_days_in_year(y + 131072), lambda: cal.is_leap_year(y - 131072),
+                  lambda: LocalDate(y + 131072, 1, 1, cal)]
+        if cal.id.startswith("Hebrew") and y - 9 >= cal.min_year:
+            # 6899 Metonic cycles = 131081 years: from year y-9 this lands on year y + 2^17
+            probes += [lambda: LocalDate(y - 9, 2, 1, cal).plus_months(235 * 6899), lambda: LocalDate(y - 9, 3, 1, cal).plus_months(235 * 6899),
+                       lambda: LocalDate(y - 9, 8, 1, cal).plus_months(235 * 6899), lambda: LocalDate(y - 9, 9, 1, cal).plus_months(235 * 6899)]
+        for f in probes:
+            try:
+                f()
+            except Exception:  # noqa: BLE001
+                pass
+        return "poison"
     if kind == "start":
         order_first = min(LocalDate(y, m, 1, cal) for m in range(1, cal.get_months_in_year(y) + 1))
         return impl.days_of(order_first)
@@ -91,7 +112,7 @@ def _year_alphabet(cal, slot_seed):
     for y in a + [a[0] + 1, a[-1] + 1, a[0] - 1]:
         if lo <= y <= hi and y not in years:
             years.append(y)
-    return [(k, y) for y in years[:5] for k in ("start", "shape")]
+    return [(k, y) for y in years[:5] for k in ("start", "shape")] + [("poison", years[0]), ("poison", years[1])]
 
 
 def _year_alphabet_boundary(cal):
@@ -101,7 +122,9 @@ def _year_alphabet_boundary(cal):
     for Y in (1023, 2047, 3071, 5119):
         years = [y for y in (Y, Y + 1024, Y + 1, Y + 1025, Y - 1) if lo <= y <= hi]
         if len(years) == 5:
-            return [(k, y) for y in years for k in ("start", "shape")]
+            alpha = [(k, y) for y in years for k in ("start", "shape")]
+            alpha += [("poison", years[0]), ("poison", years[2]), ("poison", years[1])]
+            return alpha
     return []
 
 
@@ -631,7 +654,7 @@ def H_years(cal_id):
     caches = _find_year_caches(calc)
     alpha = _year_alphabet(cal, 5)
     y1 = alpha[0][1]
-    al = [y for k, y in alpha if y != y1 and (y - y1) % 1024 == 0]
+    al = [y for k, y in alpha if k == "start" and y != y1 and (y - y1) % 1024 == 0]
     y2 = al[0] if al else y1 + 1
     hebrew = cal_id.startswith("Hebrew")
 
@@ -890,6 +913,118 @@ def H_current_culture():
     return make, check, ("_culture_info.py", "_pyoda_format_info.py")
 
 
+# ---- generic pairs of pure operations on shared objects --------------------------------------------------------------
+# Any public query is documented to be a pure function of its arguments "whether or not other threads are using the same
+# objects".  Each entry below builds fresh shared objects, optionally warms them with a DIFFERENT query, and runs two
+# queries in two threads with EVERY line of EVERY pyoda_time file as a scheduling point; the answers must equal the
+# answers computed sequentially on fresh objects.  This is what catches an unsynchronised memo added anywhere.
+
+def _generic_catalogue():
+    from pyoda_time import IsoDayOfWeek, LocalDateTime, LocalTime, OffsetDateTime, Period, PeriodUnits
+    from pyoda_time import DateInterval
+    from pyoda_time.calendars import WeekYearRules
+    from pyoda_time.text import LocalDateTimePattern, LocalDatePattern
+    cat = {}
+
+    def entry(name, build, warm, op_a, op_b, render):
+        cat[name] = (build, warm, op_a, op_b, render)
+    iso = CalendarSystem.iso
+    jul = CalendarSystem.julian
+    hc = CalendarSystem.hebrew_civil
+    d1, d2, d3 = LocalDate(2020, 12, 31), LocalDate(2016, 1, 2), LocalDate(2024, 2, 29)
+    entry("weekyear-rule", lambda: WeekYearRules.iso, lambda r: r.get_week_year(d3),
+          lambda r: (r.get_week_year(d1), r.get_week_of_week_year(d1)), lambda r: (r.get_week_year(d2), r.get_week_of_week_year(d2), r.get_weeks_in_week_year(2020)), repr)
+    entry("weekyear-rule-regular", lambda: WeekYearRules.for_min_days_in_first_week(1, IsoDayOfWeek.SUNDAY), None,
+          lambda r: r.get_local_date(2021, 1, IsoDayOfWeek.MONDAY).day, lambda r: (r.get_week_year(d1.with_calendar(hc)), r.get_week_of_week_year(d2)), repr)
+    o1 = OffsetDateTime(LocalDateTime(2024, 3, 10, 1, 2, 3), Offset.from_hours(2))
+    o2 = OffsetDateTime(LocalDateTime(2024, 3, 10, 22, 0, 0), Offset.from_hours(-5))
+    o0 = OffsetDateTime(LocalDateTime(1999, 12, 31, 23, 59, 59), Offset.zero)
+
+    def rodt(v):
+        return (v.calendar.id, v.year, v.month, v.day, v.nanosecond_of_day, v.offset.seconds)
+    entry("odt-with-calendar", lambda: None, lambda _: o0.with_calendar(jul), lambda _: rodt(o1.with_calendar(jul)), lambda _: rodt(o2.with_calendar(jul)), repr)
+    entry("odt-with-offset", lambda: None, lambda _: o0.with_offset(Offset.from_hours(9)), lambda _: rodt(o1.with_offset(Offset.from_hours(-18))), lambda _: rodt(o2.with_offset(Offset.from_hours(18))), repr)
+    entry("dateinterval-len", lambda: (DateInterval(LocalDate(2024, 2, 27), LocalDate(2024, 3, 4)), DateInterval(LocalDate(2024, 3, 5), LocalDate(2024, 3, 9))), None,
+          lambda t: (len(t[0]), len(list(t[0]))), lambda t: (len(t[0]), None if (t[0] | t[1]) is None else len(t[0] | t[1])), repr)
+    entry("dateinterval-iter", lambda: DateInterval(LocalDate(2024, 2, 27), LocalDate(2024, 3, 2)), None,
+          lambda di: [x.day for x in di], lambda di: [x.day for x in di], repr)
+    entry("period-between-hebrew", lambda: None, lambda _: Period.between(LocalDate(5784, 1, 1, hc), LocalDate(5785, 1, 1, hc), PeriodUnits.MONTHS).months,
+          lambda _: Period.between(LocalDate(5783, 6, 29, hc), LocalDate(5790, 2, 1, hc), PeriodUnits.YEARS | PeriodUnits.MONTHS | PeriodUnits.DAYS).__repr__(),
+          lambda _: LocalDate(6807, 2, 1, hc).plus_months(13).__repr__(), repr)
+    ldt1, ldt2 = LocalDateTime(2024, 5, 17, 0, 0, 0).plus_nanoseconds(2432), LocalDateTime(2024, 5, 18, 0, 0, 0)
+    entry("pattern-format", lambda: LocalDateTimePattern.extended_iso, lambda p: p.format(LocalDateTime(2001, 1, 1, 1, 1, 1)),
+          lambda p: p.format(ldt1), lambda p: p.format(ldt2), repr)
+    entry("pattern-parse", lambda: LocalDatePattern.iso, None,
+          lambda p: repr(p.parse("2024-02-29").value), lambda p: (p.parse("2023-02-29").success, repr(p.parse("1999-12-31").value)), repr)
+    src = TzdbDateTimeZoneSource.default
+    i2050, i2060, i2024 = mk_instant(2_539_000_000 * 10**9), mk_instant(2_855_000_000 * 10**9), mk_instant(1_720_000_000 * 10**9)
+    entry("zone-tail-lookups", lambda: src.for_id("Europe/London"), None, lambda z: _zi_key(z.get_zone_interval(i2050)), lambda z: _zi_key(z.get_zone_interval(i2060)), repr)
+    alias = mk_instant(1_720_000_000 * 10**9 + 16384 * NS_DAY)
+    entry("zone-warm-hit-vs-alias", lambda: src.for_id("America/New_York"), lambda z: z.get_zone_interval(i2024),
+          lambda z: (_zi_key(z.get_zone_interval(i2024)), z.get_utc_offset(i2024).seconds), lambda z: _zi_key(z.get_zone_interval(alias)), repr)
+    lt = LocalDateTime(2021, 3, 28, 1, 30, 0)
+    entry("zone-map-local", lambda: src.for_id("Europe/London"), None, lambda z: (z.map_local(lt).count, z.at_leniently(lt).offset.seconds),
+          lambda z: (z.map_local(LocalDateTime(2021, 10, 31, 1, 30, 0)).count, repr(z.at_start_of_day(LocalDate(2021, 3, 28)).to_instant())), repr)
+    return cat
+
+
+def H_generic(name):
+    build, warm, op_a, op_b, _ = _generic_catalogue()[name]
+
+    def fresh():
+        obj = build()
+        if warm is not None:
+            warm(obj)
+        return obj
+    exp_a = op_a(fresh())
+    exp_b = op_b(fresh())
+
+    def make():
+        obj = fresh()
+        return [lambda: op_a(obj), lambda: op_b(obj)], {}
+
+    def check(s, c):
+        if s.status != "OK":
+            return (s.status,), "execution does not complete: %s" % s.status
+        e = _outcome_errors(s)
+        if e is not None:
+            return ("error", type(e).__name__), "thread raised %r" % (e,)
+        ok = (s.results[0] == exp_a, s.results[1] == exp_b)
+        return ok, (None if all(ok) else "two threads querying shared objects (%s) got %r / %r, sequential answers on fresh objects are %r / %r" % (name, s.results[0], s.results[1], exp_a, exp_b))
+    return make, check, ("*pyoda_time*",)
+
+
+def H_hebrew_warm(numbering):
+    """the process-global Hebrew cache with the NEXT year already cached: thread A computes year y (reads y+1's slot),
+    thread B stores an alias of y+1 into that slot"""
+    cal = CalendarSystem.hebrew_civil if numbering == "civil" else CalendarSystem.hebrew_scriptural
+    caches = _find_year_caches(cal._year_month_day_calculator)
+    y = 5784
+
+    def q(yy):
+        return (cal.get_days_in_year(yy), tuple(cal.get_days_in_month(yy, m) for m in range(1, cal.get_months_in_year(yy) + 1)), impl.days_of(LocalDate(yy, 1, 1, cal)))
+    _reset_year_caches(caches)
+    exp_y = q(y)
+    _reset_year_caches(caches)
+    exp_alias = q(y + 1 + 1024)
+
+    def make():
+        _reset_year_caches(caches)
+        q(y + 1)
+        return [lambda: q(y), lambda: q(y + 1 + 1024)], {}
+
+    def check(s, c):
+        if s.status != "OK":
+            return (s.status,), "execution does not complete: %s" % s.status
+        e = _outcome_errors(s)
+        if e is not None:
+            return ("error", type(e).__name__), "thread raised %r" % (e,)
+        later = q(y)
+        ok = (s.results[0] == exp_y, s.results[1] == exp_alias, later == exp_y)
+        return ok, (None if all(ok) else "Hebrew year %d computed while another thread caches year %d: got %r (later %r), sequential answer %r" % (y, y + 1025, s.results[0], later, exp_y))
+    return make, check, ("_year_start_cache_entry.py", "_hebrew_scriptural_calculator.py::__get_or_populate_cache|__compute_cache_entry")
+
+
 def _harness_table(tier):
     hs = []
     years_cals = ("ISO", "Hijri Civil-Base15", "Hebrew Civil", "Hebrew Scriptural", "Badi")
@@ -909,6 +1044,11 @@ def _harness_table(tier):
     hs.append(("H7-cache", H_cache))
     for k in ("days", "months", "genitive", "months2"):
         hs.append(("H8-formatinfo:%s" % k, lambda k=k: H_formatinfo(k)))
+    hs.append(("H2-hebrew-warm:civil", lambda: H_hebrew_warm("civil")))
+    hs.append(("H2-hebrew-warm:scriptural", lambda: H_hebrew_warm("scriptural")))
+    for g in ("weekyear-rule", "weekyear-rule-regular", "odt-with-calendar", "odt-with-offset", "dateinterval-len", "dateinterval-iter", "period-between-hebrew",
+              "pattern-format", "pattern-parse", "zone-tail-lookups", "zone-warm-hit-vs-alias", "zone-map-local"):
+        hs.append(("H20-generic:%s" % g, lambda g=g: H_generic(g)))
     hs.append(("H9-pattern-cache", H_pattern_cache))
     hs.append(("H10-current-culture", H_current_culture))
     return hs
@@ -932,7 +1072,7 @@ def _run_harness(idx):
     # choose what is affordable: cost of a plan ~ executions x points; executions ~ P (bound 1) or P^2/2 (bound 2)
     budget = 24_000 if tier == "quick" else 400_000
     plans = []
-    for opcodes in (True, False):
+    for opcodes in ((False,) if name.startswith(("H20-generic", "H2-hebrew-warm")) else (True, False)):
         try:
             sched.run_schedule(make, [], files, opcodes)
             s0, _ = sched.run_schedule(make, [], files, opcodes)
@@ -940,6 +1080,13 @@ def _run_harness(idx):
             acc.degrade("harness %s: probe run failed (%s)" % (name, type(e).__name__))
             return acc
         P = max(1, len(s0.trace))
+        if name.startswith(("H20-generic", "H2-hebrew-warm")):
+            # whole-library tracing: always the complete single-preemption space at this granularity (about P executions);
+            # the CPU-time cap of explore() bounds the cost and is reported if it bites
+            plans.append((1, opcodes, 4 * P + 50))
+            if opcodes is False and tier != "quick" and P * P * P // 2 <= budget * 8:
+                plans.append((2, opcodes, max(200, (budget * 8) // P)))
+            break
         if P * P * P // 2 <= budget * 4:
             plans.append((2, opcodes, max(200, (budget * 4) // P)))
         elif P * P <= budget * 2:
@@ -950,7 +1097,7 @@ def _run_harness(idx):
         plans = [(1, False, max(50, budget // max(1, P)))]
     for bound, opcodes, max_runs in plans:
         try:
-            r = sched.explore(make, files, bound, opcodes, check, max_runs, max_seconds=(40 if tier == "quick" else 300))
+            r = sched.explore(make, files, bound, opcodes, check, max_runs, max_seconds=((8 if name.startswith("H20-generic") else 30) if tier == "quick" else 300))
         except sched.ReplayDivergence as e:
             acc.degrade("harness %s (%s granularity): schedule replay diverged (%s) - harness fault, not counted" % (name, "opcode" if opcodes else "line", str(e)[:100]))
             continue
